@@ -1157,9 +1157,13 @@ func (p *parser) typeAliasDecl() ast.Declaration {
 
 	p.consumeSeq(token.NENNEN)
 	p.consumeAny(token.EIN, token.EINE, token.EINEN)
+	underlyingArticle := p.previous()
 	underlyingStart := p.peek()
 	underlying := p.parseType(false)
 	underlyingEnd := p.previous()
+	if underlying != nil && !ddptypes.MatchesGender(underlying, genderFromArticle2Akkusativ(underlyingArticle.Type)) {
+		p.err(ddperror.SYN_GENDER_MISMATCH, underlyingArticle.Range, fmt.Sprintf("Falscher Artikel, meintest du %s?", articleFromGender2Akkusativ(underlying.Gender())))
+	}
 
 	isPublic := p.matchAny(token.OEFFENTLICH)
 	p.consumeSeq(token.AUCH)
@@ -1206,10 +1210,14 @@ func (p *parser) typeDefDecl() ast.Declaration {
 	p.consumeSeq(token.ALS)
 
 	p.consumeAny(token.EIN, token.EINE, token.EINEN)
+	underlyingArticle := p.previous()
 	underlyingStart := p.peek()
 	underlying := p.parseType(false)
 	underlyingEnd := p.previous()
 	underlyingRange := token.NewRange(underlyingStart, underlyingEnd)
+	if underlying != nil && !ddptypes.MatchesGender(underlying, genderFromArticle2Akkusativ(underlyingArticle.Type)) {
+		p.err(ddperror.SYN_GENDER_MISMATCH, underlyingArticle.Range, fmt.Sprintf("Falscher Artikel, meintest du %s?", articleFromGender2Akkusativ(underlying.Gender())))
+	}
 
 	if ddptypes.Equal(underlying, ddptypes.VARIABLE) {
 		p.err(ddperror.SEM_BAD_TYPEDEF, underlyingRange, fmt.Sprintf("Es kann kein neuer Typ als '%s' definiert werden", ddptypes.VARIABLE))
